@@ -180,6 +180,77 @@ def _immutable_atom(e) -> bool:
     return False
 
 
+class _BoolSimplify(ast.NodeTransformer):
+    """`True if c else X` -> `c or X`, `X if c else False` -> `c and X`, ... everywhere; `bool(X)` -> X where only the truth
+    value is used (if / while tests, operands of not / and / or inside such tests)."""
+
+    def __init__(self):
+        self.changed = False
+
+    def visit_IfExp(self, node):
+        self.generic_visit(node)
+        new = BlockNormalizer._ifexp(node.test, node.body, node.orelse)
+        if not isinstance(new, ast.IfExp):
+            self.changed = True
+            return ast.copy_location(new, node)
+        return node
+
+    def _truth(self, e):
+        if isinstance(e, ast.Call) and isinstance(e.func, ast.Name) and e.func.id == "bool" and len(e.args) == 1 and not e.keywords:
+            self.changed = True
+            return self._truth(e.args[0])
+        if isinstance(e, ast.BoolOp):
+            e.values = [self._truth(v) for v in e.values]
+        elif isinstance(e, ast.UnaryOp) and isinstance(e.op, ast.Not):
+            e.operand = self._truth(e.operand)
+        return e
+
+    def visit_If(self, node):
+        self.generic_visit(node)
+        node.test = self._truth(node.test)
+        return node
+
+    def visit_While(self, node):
+        self.generic_visit(node)
+        node.test = self._truth(node.test)
+        return node
+
+
+def _calls_evaluated_before(x: ast.AST, v: str):
+    """Call nodes of expression x that have been executed by the time the (single) load of name v is evaluated:
+    the calls met earlier in left-to-right order that do not enclose v (a call runs after its arguments)."""
+    order = []
+
+    def dfs(n, anc):
+        order.append((n, anc))
+        for ch in ast.iter_child_nodes(n):
+            dfs(ch, anc + (n,))
+
+    dfs(x, ())
+    idx = next((i for i, (n, _) in enumerate(order) if isinstance(n, ast.Name) and n.id == v and isinstance(n.ctx, ast.Load)), None)
+    if idx is None:
+        return [c for c in ast.walk(x) if isinstance(c, ast.Call)]
+    ancestors = {id(a) for a in order[idx][1]}
+    return [n for n, _ in order[:idx] if isinstance(n, ast.Call) and id(n) not in ancestors]
+
+
+def _calls_before_node(x: ast.AST, target: ast.AST):
+    """Call nodes of expression x executed before the call node `target` starts (left-to-right, not enclosing it)."""
+    order = []
+
+    def dfs(n, anc):
+        order.append((n, anc))
+        for ch in ast.iter_child_nodes(n):
+            dfs(ch, anc + (n,))
+
+    dfs(x, ())
+    idx = next((i for i, (n, _) in enumerate(order) if n is target), None)
+    if idx is None:
+        return [c for c in ast.walk(x) if isinstance(c, ast.Call)]
+    ancestors = {id(a) for a in order[idx][1]}
+    return [n for n, _ in order[:idx] if isinstance(n, ast.Call) and id(n) not in ancestors]
+
+
 class _ScopeCounts:
     """Loads / stores of every name in one function (nested functions and comprehensions included)."""
 
@@ -207,7 +278,8 @@ def _nonmutating_call(c: ast.Call) -> bool:
     if f in PURE_CALLS:
         return True
     root = f.split(".")[0]
-    return root in _NONMUTATING_ROOTS and ".random." not in f
+    # random draws only advance the generator, which no call-free expression reads
+    return root in _NONMUTATING_ROOTS or root in ("nrand", "random")
 
 
 def _first_evaluated(e):
@@ -272,7 +344,10 @@ class BlockNormalizer:
         self.scope = None
         ci = _CompItems()
         ci.visit(tree)
-        self.changed = self.changed or ci.changed
+        bs = _BoolSimplify()
+        bs.visit(tree)
+        ast.fix_missing_locations(tree)
+        self.changed = self.changed or ci.changed or bs.changed
         self._walk(tree, None)
 
     def _walk(self, n, scope):
@@ -305,6 +380,7 @@ class BlockNormalizer:
         out = self.n10_forward_single_use(out)
         out = self.n11_coalesce_alias(out)
         out = self.n12_copy_of_dead_name(out, owner, fld)
+        out = self.n14_attribute_alias(out, owner, fld)
         if len(out) != len(stmts) or any(a is not b for a, b in zip(out, stmts)):
             self.changed = True
             return out if out else [ast.Pass()]
@@ -350,6 +426,13 @@ class BlockNormalizer:
                 if in_func_body and isinstance(only, ast.Return) and only.value is None and not any(isinstance(x, ast.Return) and x.value is not None for r in rest for x in ast.walk(r)):
                     new_if = ast.copy_location(ast.If(test=_negate(s.test), body=rest, orelse=[]), s)
                     return stmts[:i] + [new_if]
+                # `if c: return V ; REST ; return V`  (same plain name / constant V)  ->  `if not c: REST ; return V`
+                if in_func_body and isinstance(only, ast.Return) and isinstance(only.value, (ast.Name, ast.Constant)) and len(rest) >= 2 and isinstance(rest[-1], ast.Return) and rest[-1].value is not None and _u(rest[-1].value) == _u(only.value):
+                    mid = rest[:-1]
+                    reassigned = isinstance(only.value, ast.Name) and any(only.value.id in _names_stored(m) for m in mid)
+                    if not reassigned and not any(isinstance(x, ast.Return) for m in mid for x in ast.walk(m)):
+                        new_if = ast.copy_location(ast.If(test=_negate(s.test), body=mid, orelse=[]), s)
+                        return stmts[:i] + [new_if, rest[-1]]
         return stmts
 
     def n5_items(self, stmts):
@@ -571,7 +654,7 @@ class BlockNormalizer:
                 used_elsewhere = any(isinstance(x, ast.Name) and x.id == v for st in later for x in ast.walk(st)) or any(isinstance(x, ast.Name) and x.id == v for st in nxt.body + nxt.orelse for x in ast.walk(st))
                 first_name = next((x for x in ast.walk(nxt.test) if isinstance(x, (ast.Name, ast.Call, ast.Attribute))), None)
                 leading = _leftmost_leaf(nxt.test)
-                if len(uses_in_test) == 1 and not used_elsewhere and isinstance(leading, ast.Name) and leading.id == v and isinstance(s.value, (ast.Call, ast.BoolOp, ast.Compare, ast.Attribute, ast.UnaryOp)):
+                if len(uses_in_test) == 1 and not used_elsewhere and isinstance(leading, ast.Name) and leading.id == v and isinstance(s.value, (ast.Call, ast.BoolOp, ast.Compare, ast.Attribute, ast.UnaryOp, ast.IfExp)):
                     new_test = _subst(nxt.test, {v: s.value})
                     new_if = ast.If(test=new_test, body=nxt.body, orelse=nxt.orelse)
                     ast.copy_location(new_if, nxt)
@@ -598,7 +681,27 @@ class BlockNormalizer:
                 i += 1
                 continue
             v = s.targets[0].id
-            if not (self.scope.loads.get(v, 0) == 1 and self.scope.stores.get(v, 0) == 1) or v.startswith("__key_of_") or v in _names_loaded(s.value):
+            n_loads = self.scope.loads.get(v, 0)
+            if n_loads == 2 and self.scope.stores.get(v, 0) == 1 and i + 1 < len(stmts) and _is_simple_expr(s.value) and v not in _names_loaded(s.value):
+                # one use in each arm of a conditional expression of the next statement: only one of them is ever evaluated
+                nxt = stmts[i + 1]
+                if isinstance(nxt, (ast.Assign, ast.Return, ast.Expr, ast.AnnAssign)) and getattr(nxt, "value", None) is not None:
+                    hit = None
+                    for ie in ast.walk(nxt.value):
+                        if isinstance(ie, ast.IfExp):
+                            nb = sum(1 for y in ast.walk(ie.body) if isinstance(y, ast.Name) and y.id == v)
+                            no = sum(1 for y in ast.walk(ie.orelse) if isinstance(y, ast.Name) and y.id == v)
+                            nt = sum(1 for y in ast.walk(ie.test) if isinstance(y, ast.Name) and y.id == v)
+                            if nb == 1 and no == 1 and nt == 0:
+                                hit = ie
+                                break
+                    if hit is not None and all(_nonmutating_call(c) for c in ast.walk(nxt.value) if isinstance(c, ast.Call)):
+                        nxt.value = _subst(nxt.value, {v: s.value})
+                        ast.fix_missing_locations(nxt)
+                        del stmts[i]
+                        self.scope.recount()
+                        continue
+            if not (n_loads == 1 and self.scope.stores.get(v, 0) == 1) or v.startswith("__key_of_") or v in _names_loaded(s.value):
                 i += 1
                 continue
             pure_e = _is_simple_expr(s.value)
@@ -616,8 +719,8 @@ class BlockNormalizer:
                 if uses_here:
                     if x is not None and _single_direct_use(x, v):
                         first = _first_evaluated(x)
-                        same_point = j == i + 1 and isinstance(first, ast.Name) and first.id == v and not isinstance(nxt, ast.AugAssign)
-                        pure_move = (pure_e and all(_nonmutating_call(c) for c in ast.walk(x) if isinstance(c, ast.Call))) or _immutable_atom(s.value)
+                        same_point = (j == i + 1 or pure_e) and isinstance(first, ast.Name) and first.id == v and not isinstance(nxt, ast.AugAssign)
+                        pure_move = (pure_e and all(_nonmutating_call(c) for c in _calls_evaluated_before(x, v))) or _immutable_atom(s.value)
                         if same_point or pure_move:
                             setattr(holder, fld, _subst(x, {v: s.value}))
                             ast.fix_missing_locations(holder)
@@ -721,6 +824,46 @@ class BlockNormalizer:
                         continue
             out.append(s)
         return out
+
+    def n14_attribute_alias(self, stmts, owner, fld):
+        """t = a.b[.c]  (call-free attribute chain of a name that is never rebound) ; ... t ... t ...   ->   ... a.b ... a.b ...
+        at the top level of a function body, when t is stored once, read a few times, only after its definition, and no
+        attribute of that final name is stored anywhere in the function."""
+        if self.scope is None or not (isinstance(owner, (ast.FunctionDef, ast.AsyncFunctionDef)) and fld == "body"):
+            return stmts
+        stmts = list(stmts)
+        j = 0
+        while j < len(stmts):
+            st = stmts[j]
+            if isinstance(st, ast.Assign) and isinstance(st.value, ast.Attribute):  # annotated assignments carry type information: kept
+                tg = st.targets
+                if len(tg) == 1 and isinstance(tg[0], ast.Name):
+                    t = tg[0].id
+                    chain = st.value
+                    root = chain
+                    attrs = []
+                    while isinstance(root, ast.Attribute):
+                        attrs.append(root.attr)
+                        root = root.value
+                    params = [x.arg for x in owner.args.posonlyargs + owner.args.args + owner.args.kwonlyargs]
+                    is_plain_param = isinstance(root, ast.Name) and root.id in params[0 if not params or params[0] not in ("self", "cls") else 1:]
+                    if is_plain_param and root.id != t and len(attrs) <= 3:
+                        a = root.id
+                        n_loads = self.scope.loads.get(t, 0)
+                        stored_attrs = {x.attr for x in ast.walk(owner) if isinstance(x, ast.Attribute) and isinstance(x.ctx, (ast.Store, ast.Del))}
+                        before = stmts[:j]
+                        t_before = any(isinstance(x, ast.Name) and x.id == t for b in before for x in ast.walk(b))
+                        nested = any(isinstance(x, (ast.FunctionDef, ast.Lambda)) and any(isinstance(y, ast.Name) and y.id == t for y in ast.walk(x)) for b in stmts[j + 1:] for x in ast.walk(b))
+                        a_stores = self.scope.stores.get(a, 0)
+                        if self.scope.stores.get(t, 0) == 1 and 1 <= n_loads <= 5 and a_stores <= 1 and not (set(attrs) & stored_attrs) and not t_before and not nested:
+                            ren = {t: st.value}
+                            stmts = before + [_Rename(ren).visit(b) for b in stmts[j + 1:]]
+                            for b in stmts:
+                                ast.fix_missing_locations(b)
+                            self.scope.recount()
+                            continue
+            j += 1
+        return stmts
 
     def n2_ifexp(self, stmts):
         out = []
@@ -1056,11 +1199,14 @@ class Inliner:
                     self.changed = True
                     return res or [ast.copy_location(ast.Pass(), s)]
         # expression position: replace calls to single-return helpers inside this statement (not descending into nested blocks)
-        self._inline_exprs(s, cls, selfn, cur_fn)
-        return [s]
+        hoisted = self._inline_exprs(s, cls, selfn, cur_fn)
+        return list(hoisted) + [s]
 
     def _inline_exprs(self, s, cls, selfn, cur_fn):
         outer = self
+        hoisted = []
+        simple_stmt = isinstance(s, (ast.Assign, ast.AnnAssign, ast.Return, ast.Expr)) and getattr(s, "value", None) is not None
+        s_root = s.value if simple_stmt else s
 
         class T(ast.NodeTransformer):
             def generic_visit(self, node):
@@ -1089,7 +1235,23 @@ class Inliner:
                     return node
                 fn, kind, body = h
                 if not (len(body) == 1 and isinstance(body[0], ast.Return) and body[0].value is not None):
-                    return node
+                    # a straight-line helper with one final return: hoist its body in front of the statement when nothing
+                    # with effects is evaluated in the statement before the call
+                    multi_ok = len(body) >= 2 and isinstance(body[-1], ast.Return) and body[-1].value is not None and not any(isinstance(x, ast.Return) for st in body[:-1] for x in ast.walk(st))
+                    if not (multi_ok and simple_stmt and all(_nonmutating_call(c) for c in _calls_before_node(s_root, node))):
+                        return node
+                    recv = node.func.value if isinstance(node.func, ast.Attribute) else None
+                    bound = outer._bind(fn, node, skip, recv)
+                    if bound is None:
+                        return node
+                    mapping, prelude = bound
+                    inst = outer._instantiate(fn, body, mapping, s)
+                    hoisted.extend(prelude + inst[:-1])
+                    outer.changed = True
+                    e = inst[-1].value
+                    ast.copy_location(e, node)
+                    ast.fix_missing_locations(e)
+                    return e
                 recv = node.func.value if isinstance(node.func, ast.Attribute) else None
                 bound = outer._bind(fn, node, skip, recv)
                 if bound is None:
@@ -1104,6 +1266,10 @@ class Inliner:
                 return e
 
         T().visit(s)
+        for h in hoisted:
+            ast.copy_location(h, s)
+            ast.fix_missing_locations(h)
+        return hoisted
 
 
 def _simplify_bool(e: ast.expr) -> ast.expr:
@@ -1112,7 +1278,7 @@ def _simplify_bool(e: ast.expr) -> ast.expr:
     return e
 
 
-def _expr_of_block(stmts, fall, depth=0):
+def _expr_of_block(stmts, fall, depth=0, allow_dup=False):
     """Return expression computed by a block of (simple assignments | if | return) statements, given the expression
     `fall` that the code after the block evaluates to; None if the block is not of that pure form."""
     if depth > 12:
@@ -1121,12 +1287,12 @@ def _expr_of_block(stmts, fall, depth=0):
         return fall
     s, rest = stmts[0], stmts[1:]
     if isinstance(s, ast.Expr) and isinstance(s.value, ast.Constant):
-        return _expr_of_block(rest, fall, depth + 1)
+        return _expr_of_block(rest, fall, depth + 1, allow_dup)
     if isinstance(s, ast.Return):
         # an impure returned expression is fine: it is evaluated exactly once, last, as before
         return s.value if s.value is not None else ast.Constant(value=None)
     if isinstance(s, ast.Assign) and len(s.targets) == 1 and isinstance(s.targets[0], ast.Name) and _is_simple_expr(s.value):
-        r = _expr_of_block(rest, fall, depth + 1)
+        r = _expr_of_block(rest, fall, depth + 1, allow_dup)
         if r is None:
             return None
         # constants / plain names may be substituted anywhere; other pure values only into pure expressions
@@ -1134,16 +1300,16 @@ def _expr_of_block(stmts, fall, depth=0):
         if not isinstance(s.value, (ast.Constant, ast.Name)) and not _is_simple_expr(r):
             return None
         uses = sum(1 for x in ast.walk(r) if isinstance(x, ast.Name) and x.id == s.targets[0].id)
-        if uses > 1 and not isinstance(s.value, (ast.Constant, ast.Name, ast.Attribute)):
+        if uses > 1 and not allow_dup and not isinstance(s.value, (ast.Constant, ast.Name, ast.Attribute)):
             return None  # do not duplicate computations
         return _subst(r, {s.targets[0].id: s.value})
     if isinstance(s, ast.If):
         # the test is evaluated first and exactly one arm afterwards, as in the statement form: no purity needed
-        r = _expr_of_block(rest, fall, depth + 1)
+        r = _expr_of_block(rest, fall, depth + 1, allow_dup)
         if r is None:
             return None
-        a = _expr_of_block(s.body, r, depth + 1)
-        b = _expr_of_block(s.orelse, r, depth + 1)
+        a = _expr_of_block(s.body, r, depth + 1, allow_dup)
+        b = _expr_of_block(s.orelse, r, depth + 1, allow_dup)
         if a is None or b is None:
             return None
         return ast.IfExp(test=s.test, body=a, orelse=b)
